@@ -201,13 +201,16 @@ func saveState(lastMessages map[string]interface{}) {
 		return
 	}
 
-	// Move old config file to backup and new file to standard config name.
+	// Make the old config file the backup, and the new file the standard config file.
 	err = os.Remove(bakname)
 	if err != nil && !os.IsNotExist(err) {
 		log.Println("Could not remove backup file ", bakname, " even though it exists: ", err)
 		return
 	}
-	err = os.Rename(mainname, bakname)
+	// Keep the old file as the backup by giving it a second name (hard link). Never move the
+	// live config file away: if dastard is killed right here, the next start-up must still
+	// find a complete config file, and the rename below replaces it atomically.
+	err = os.Link(mainname, bakname)
 	if err != nil && !os.IsNotExist(err) {
 		log.Println("Could not save backup file: ", err)
 		return
